@@ -41,8 +41,9 @@ META = {
         'smoothers outside the cycle model (Chebyshev, Richardson, Schwarz, strength-based Schwarz, block size > 1, '
         'withrho=True rescaling, BSR matrices, normal-equation smoothers): M = M^H and definiteness are decided by the dense-M '
         'search on the real code only; their flag logic is still model-compared row by row',
-        'complex Hermitian matrices: the Lean theorems are stated over ordered fields (real symmetric case); for complex data the '
-        'exact Gaussian-rational cycle model decides M = M^H per instance and the search checks the real code',
+        'complex Hermitian matrices: the adjointness / definiteness theorems of the first rounds are stated over ordered fields; the '
+        'complex executed model is covered by the order-free refinement chain and the Hermitian adjointness theory over fields with '
+        'involution (flag_denseM_hermitian_checked_crat); definiteness for complex data is decided by the search on the real code',
         'positive definiteness: precond_psd / precond_pd reduce it to (strict) energy reduction by the cycle; that reduction is not '
         'derived from the smoother parameters but observed (lambda_min(M) > 0 on the real code)',
         'the CG warning: the consumer `accel == "cg" and not symmetric_smoothing` is a one-line model (cgWarns); the real '
@@ -55,9 +56,14 @@ META = {
         'real case: the executable array model of the cycle (denseM, compared with the real M) is proved to be the matrix of the '
         'textbook operator MopL/Mop over smOp (denseM_is_textbook_operator, denseM_is_Mop) and to be symmetric when the flag is True '
         '(flag_denseM_symmetric; hypotheses: matching shapes, one stored non-zero diagonal entry per row, symmetric level matrices, '
-        'R = P^T as CSR operators); complex (Gaussian-rational) case: denseM and the operator-level theorems are still tied per '
-        'instance by exact checks computed in Lean (M equals the Mop formula evaluated with the smoother matrices, post-smoother '
-        'matrix = transpose-conjugate of the pre-smoother matrix on every level, M = M^H), not by a refinement proof',
+        'R = P^T as CSR operators); these hypotheses are discharged by the Boolean checker c05Check evaluated by the driver on the '
+        'concrete CSR data of every hierarchy (op ext_c05_symh; soundness: shaped_of_B, lvlOK_of_B, installed_of_B, symH_of_check; '
+        'flag_denseM_symmetric_checked: flag True and c05Check true => denseM symmetric, no undecided hypothesis), and every exactly '
+        'Hermitian generated hierarchy is required to pass it; complex (Gaussian-rational) case: the same chain re-proved over an '
+        'arbitrary field (namespace PyamgV.CF: field_denseM_is_textbook_operator) and over a field with involution '
+        '(flag_denseM_hermitian_checked_crat: flag True and c05Check CRat.conj true => the executed complex denseM satisfies '
+        'M i j = conj (M j i)); the exact per-instance comparisons computed in Lean (M equals the Mop formula, post-smoother matrix = '
+        'conjugate transpose of the pre-smoother matrix, M = M^H) are kept as cross-checks of model and theorems',
     ],
     'assumptions': [
         'R = P^H, A Hermitian on every level, non-singular coarsest matrix solved exactly (pinv/splu/lu/cholesky): checked per '
@@ -725,6 +731,12 @@ def cyc_line(ml, pre, post, cyc, cplx):
     return ' '.join(toks)
 
 
+def symh_line(ml, pre, post, cplx):
+    """the proved Boolean checker c05Check (Proofs/ExtC05BridgeCheck.lean) on the same concrete hierarchy data"""
+    toks = cyc_line(ml, pre, post, 'V', cplx).split(' ')
+    return ' '.join(['ext_c05_symh', toks[1]] + toks[3:])
+
+
 def dec_mat(s, cplx):
     rows = []
     for r in s.split(';'):
@@ -854,6 +866,7 @@ def part_cycles(ctx, n_hand, n_ctor):
         lines.append(f'c05_flag {enc_specs(P)} {enc_specs(Q)} {len(ml.levels) - 1}')
         for cyc in 'VW':
             lines.append(cyc_line(ml, P, Q, cyc, cplx))
+        lines.append(symh_line(ml, P, Q, cplx))
         meta.append((i0, ml, P, Q, cplx, case, exact, Ms, r))
     outs = lean(ctx, lines)
     for i0, ml, P, Q, cplx, case, exact, Ms, r in meta:
@@ -861,6 +874,10 @@ def part_cycles(ctx, n_hand, n_ctor):
         nl = len(ml.levels) - 1
         if mflag != r:
             ctx.corr('change_smoothers flag (cycle part)', {**case, 'pre': json_specs(P), 'post': json_specs(Q)}, mflag, r)
+        # the proved path (flag_denseM_symmetric_checked, complex: flag_denseM_hermitian_checked_crat): flag True and c05Check true
+        # => the model matrix is symmetric / Hermitian
+        symh = outs[i0 + 3].split(' ')
+        ctx.feat(f'cycle:c05Check:{"complex" if cplx else "real"}:{symh[0]}' + (f':parts={symh[1]}' if len(symh) > 1 and symh[0] != 'true' else ''))
         for k, cyc in enumerate('VW'):
             o = outs[i0 + 1 + k]
             M = Ms[cyc]
@@ -891,6 +908,12 @@ def part_cycles(ctx, n_hand, n_ctor):
                 ctx.corr('model consistency: flag => adjoint pairs (levelOk_adjoint)', cj, o[-30:], 'adj=true')
             if exact and hh != 'true':
                 ctx.corr('hand-built hierarchy is not exactly Hermitian in the model', cj, o[-30:], 'hh=true')
+            if k == 0 and (exact or hh == 'true') and symh[0] != 'true':
+                # every exactly-Hermitian hierarchy must pass the checker whose soundness is proved (shapes, distinct C-points,
+                # one stored non-zero diagonal per row, in-range indices, Hermitian dense copies, installed smoothers)
+                ctx.corr('exactly Hermitian hierarchy fails the proved checker c05Check (ext_c05_symh)', cj, ' '.join(symh), 'true')
+            if symh[0] == 'true' and mflag == 'true' and herm != 'true':
+                ctx.corr('model consistency: flag True and c05Check => M Hermitian (flag_denseM_symmetric_checked / flag_denseM_hermitian_checked_crat)', cj, o[-30:], 'herm=true')
             ctx.feat(f'cycle:flag={r} model-herm={herm}')
             # the property on the real code, with the M already computed (smoothers are still installed on this solver)
             if r == 'true':
